@@ -31,19 +31,21 @@ OUTSIDE = ["L beyond the bound", "cell indices >= n"]
 def bounds(tier):
     if tier == "quick":
         return {"L": "0..6", "n_cells": [1, 2, 3], "tau": [1, 2, 3], "modes": ["sliding", "non-overlapping"], "NaN": "every subset of frames"}
-    return {"L": "0..9", "n_cells": [1, 2, 3, 4], "tau": [1, 2, 3, 4], "modes": ["sliding", "non-overlapping"], "NaN": "every subset of frames"}
+    return {"L": "0..8 for n<=3, 0..6 for n=4", "n_cells": [1, 2, 3, 4], "tau": [1, 2, 3, 4], "modes": ["sliding", "non-overlapping"], "NaN": "every subset of frames"}
 
 
 def shapes(tier, seed):
     out = []
-    Ls = range(0, 7) if tier == "quick" else range(0, 10)
+    Ls = range(0, 7) if tier == "quick" else range(0, 9)
     taus = (1, 2, 3) if tier == "quick" else (1, 2, 3, 4)
     ns = (1, 2, 3) if tier == "quick" else (1, 2, 3, 4)
     for L in Ls:
         for n in ns:
+            if n == 4 and L > 6:
+                continue
             for tau in taus:
                 for noncorr in (False, True):
-                    out.append({"L": L, "n": n, "tau": tau, "noncorr": noncorr})
+                    out.append({"L": L, "n": n, "tau": tau, "noncorr": noncorr, "budget": 150 if tier == "quick" else 2400})
     out.sort(key=lambda s: (s["L"] * s["n"], s["L"]))
     return out
 
@@ -85,7 +87,7 @@ def run_shape(shape):
     import molgri.molecules.transitions as T
     L, n, tau, noncorr = shape["L"], shape["n"], shape["tau"], shape["noncorr"]
     eng = Engine()
-    prover = Prover(timeout_ms=30000, budget_s=150)
+    prover = Prover(timeout_ms=30000, budget_s=shape.get("budget", 150))
     acc = Acc(shape)
     xs = [z3.Real(f"x{k}") for k in range(L)]
     nans = [z3.Bool(f"nan{k}") for k in range(L)]
